@@ -67,6 +67,15 @@ def outcome : CmdOutcome → String
   | .error w => "error " ++ w
   | .panic s => "panic " ++ hexStr s
 
+/-- C03, mapped rows: the accounts a report row `r` collects (passes `--account`; `--remap` then `-m` give `r`).
+`Properties/C03Modes.lean` proves `C03.rowSel = c03RowSel`. -/
+def c03RowSel (f : BalanceFlags) (r a : Account) : Bool :=
+  f.accountFilter a.name && decide (shorten f.mapping (if f.remap a.name then swapType a else a) = some r)
+
+/-- C03: the eve of column `k` (`C03.cellEve`): the previous period end in a `--diff` report, else the day before the window -/
+def c03Eve (f : BalanceFlags) (part : Partition) (k : Nat) : Int :=
+  if f.diff then (match k with | 0 => part.span.start - 1 | j + 1 => part.endDates.getD j 0) else part.span.start - 1
+
 def handle (fields : List String) : Option String :=
   match fields with
   | ["balance", fl, j] => some (
@@ -108,6 +117,48 @@ def handle (fields : List String) : Option String :=
       let accounts := ((Spec.userPostings days).map (fun x => x.2.account)).eraseDups
       String.intercalate " " (accounts.map (fun a =>
         a.name ++ "|" ++ String.intercalate "|" (Ds.map (fun D => s!"{D}:{showO (Spec.flowAt v days a F D)}"))))
+    | _, _, _ => "bad-op")
+  | ["c03rows", fl, j] => some (
+    -- C03_command_cell_mapped / C03_command_cell_show: per asset/liability ROW of the report under the given flags one item
+    -- name|-|mD:mF:steps|… (one cell per column: Spec.mtmOver at the period end and at the eve, Spec.stepBoundOver), and
+    -- for a row that `-s` matches one item name|commodity|mD:mF:steps|… per commodity (Spec.mtmPosOver, Spec.stepCountOver)
+    match parseFlags fl, (parseJournal j).bind Knut.Driver.C04.toDirectives with
+    | some f, some ds =>
+      match f.valuation with
+      | none => "bad-op"
+      | some v =>
+        let b := Builder.ofList ds
+        match newPartition (BalanceCmd.window f b) f.interval f.last with
+        | .panic _ => "panic"
+        | .ok part =>
+          if part.span.start > part.span.stop then "empty-window" else
+          let days := b.build
+          let showO : Option Rat → String := fun o => match o with | some r => Dec.showRat r | none => "none"
+          let rows := ((Spec.alAccounts days).filterMap (fun a =>
+            if f.accountFilter a.name then shorten f.mapping (if f.remap a.name then swapType a else a) else none)).eraseDups
+          let cols := part.endDates.zipIdx
+          String.intercalate " " (rows.flatMap (fun r =>
+            let S := Spec.sourceAccounts (c03RowSel f r) days
+            let perCom := match f.showCommodities with | some sh => sh r.name | none => false
+            if perCom then
+              ((S.flatMap (Spec.commoditiesOf days)).eraseDups).map (fun c =>
+                r.name ++ "|" ++ c ++ "|" ++ String.intercalate "|" (cols.map (fun (D, k) =>
+                  s!"{showO (Spec.mtmPosOver v days S c D)}:{showO (Spec.mtmPosOver v days S c (c03Eve f part k))}:{Spec.stepCountOver v days S (c03Eve f part k) D c}")))
+            else
+              [r.name ++ "|-|" ++ String.intercalate "|" (cols.map (fun (D, k) =>
+                s!"{showO (Spec.mtmOver v days S D)}:{showO (Spec.mtmOver v days S (c03Eve f part k))}:{Spec.stepBoundOver v days S (c03Eve f part k) D}"))]))
+    | _, _ => "bad-op")
+  | ["c03flowp", v, j, eves, dates] => some (
+    -- C03_command_flow_cell: bookings valued at the price of their own day over (F_k, D_k] per column (the eves F_k are
+    -- given: the eve of the window without closing, the eve of the period with closing): one item per account with a booking
+    -- name|flow_0|flow_1|…
+    match (parseJournal j).bind Knut.Driver.C04.toDirectives, (splitOn eves ',').mapM (·.toInt?), (splitOn dates ',').mapM (·.toInt?) with
+    | some ds, some Fs, some Ds =>
+      let days := (Builder.ofList ds).build
+      let showO : Option Rat → String := fun o => match o with | some r => Dec.showRat r | none => "none"
+      let accounts := ((Spec.userPostings days).map (fun x => x.2.account)).eraseDups
+      String.intercalate " " (accounts.map (fun a =>
+        a.name ++ "|" ++ String.intercalate "|" ((Fs.zip Ds).map (fun (F, D) => showO (Spec.flowAt v days a F D)))))
     | _, _, _ => "bad-op")
   | ["balance-spec", fl, j] => some (
     match parseFlags fl, (parseJournal j).map Knut.Driver.C04.load with
